@@ -77,7 +77,10 @@ DECIDED = {
             "of leading_zeros(w)) including subnormal results and zero; parse_float rejects as "
             "non-finite only when the exact value rounds to infinity; and the one-operation path parse_float_fast (w < 2^52, exponent "
             "-22..37) multiplies/divides exactly known operands only (w, 10^k, and an intermediate product shown to be an integer below "
-            "2^53), so that its single IEEE operation is the rounding of exactly w*10^e. The SSE digit reader simd_str2int (the 16-digit fraction reader of "
+            "2^53), so that its single IEEE operation is the rounding of exactly w*10^e. Truncated significands (more digits than the scanner "
+            "keeps; trunc == true, 10^16 <= w < 10^19 as the scanner check shows): whenever parse_float answers from the Eisel-Lemire results "
+            "for w and w+1 being equal, that answer is the rounding of both w*10^e and (w+1)*10^e, hence of the literal's exact value in "
+            "between (quick: 7 exponents; thorough: every exponent -307..345). The SSE digit reader simd_str2int (the 16-digit fraction reader of "
             "target-cpu=native builds) equals the decimal value of the digits for every need 1..16, every position and class of the "
             "first non-digit and every byte value (SMT over its MIR with lane-wise intrinsic models). The scanner in front of them, "
             "parse_number with parse_number_fraction and parse_exponent, by SMT per literal shape (1764 shapes quick, 40996 thorough, incl. malformed ones that must be rejected: sign x "
@@ -156,8 +159,8 @@ OUTSIDE = {
             "and a failing writer end to end (harnesses w_compound_shape / w_failing_writer ran out of memory)", "BytesMut writers", "MapKeySerializer beyond char and integer keys",
             "strings >= 32 bytes (block path of format_string: b_format_string_w28 needs 21 minutes and is not registered)",
             "the release-only over-read branch"],
-    "C07": ["the big-decimal fallback parse_long_mantissa and every literal with > 19 significant digits "
-            "or dropped digits (trunc): NOT covered (paths through them are counted as opaque by the SMT runs); that Eisel-Lemire "
+    "C07": ["the big-decimal fallback parse_long_mantissa (taken for > 19 significant digits whenever Eisel-Lemire's two answers differ or it "
+            "does not answer): NOT covered (paths through them are counted as opaque by the SMT runs); that Eisel-Lemire "
             "*decides* (does not fall back) is not claimed either", "the dev-profile overflow assertion at `add + 1` in parse_floating_normal_fast (neither "
             "solver decides it; release builds wrap there by design)", "literals with more than 22 integer or 22 fraction digits or more than 3 exponent digits, and rejection of "
             "malformed literals beyond 7 bytes (the grammar is decided by u_parse_number_grammar_n7 / u_skip_number_*)", "typed narrowing by serde's primitive "
